@@ -291,13 +291,16 @@ func genLoop(family string, seed uint64, tier string, o loopOpts) *world.Scenari
 		if o.faultP > 0 && r.Bool(o.faultP) {
 			nfault := r.Range(1, 4)
 			for j := 0; j < nfault; j++ {
-				switch r.Intn(4) {
+				switch r.Intn(5) {
+				case 4:
+					// the mode attribute refuses every write for a cycle or a few while the PWM attribute works
+					sc.Faults = append(sc.Faults, world.FaultSpec{Op: "write", Target: "fan:" + f.ID + ":enable", Nth: r.Range(0, 40), Count: kernel.Pick(r, 2, 4, 8, 40), Kind: kernel.Pick(r, "ebusy", "error", "einval"), OnlyFlags: "upd"})
 				case 0:
-					sc.Faults = append(sc.Faults, world.FaultSpec{Op: "read", Target: "fan:" + f.ID + ":pwm", Nth: r.Range(0, 80), Count: r.Range(1, 3), Kind: kernel.Pick(r, "eio", "garbage", "empty", "missing", "huge", "negative", "value:999", "value:-7"), OnlyFlags: "upd"})
+					sc.Faults = append(sc.Faults, world.FaultSpec{Op: "read", Target: "fan:" + f.ID + ":pwm", Nth: r.Range(0, 80), Count: r.Range(1, 3), Kind: kernel.Pick(r, "eio", "ebusy", "eagain", "garbage", "empty", "missing", "huge", "negative", "value:999", "value:-7"), OnlyFlags: "upd"})
 				case 1:
 					sc.Faults = append(sc.Faults, world.FaultSpec{Op: "read", Target: "fan:" + f.ID + ":rpm", Nth: r.Range(0, 30), Count: r.Range(1, 3), Kind: kernel.Pick(r, "eio", "garbage", "empty", "missing", "negative", "value:99999999"), OnlyFlags: "rpm"})
 				case 2:
-					sc.Faults = append(sc.Faults, world.FaultSpec{Op: "write", Target: "fan:" + f.ID + ":pwm", Nth: r.Range(0, 40), Count: r.Range(1, 3), Kind: kernel.Pick(r, "error", "ignored"), OnlyFlags: "upd"})
+					sc.Faults = append(sc.Faults, world.FaultSpec{Op: "write", Target: "fan:" + f.ID + ":pwm", Nth: r.Range(0, 40), Count: r.Range(1, 3), Kind: kernel.Pick(r, "error", "ebusy", "ignored"), OnlyFlags: "upd"})
 				default:
 					sc.Faults = append(sc.Faults, world.FaultSpec{Op: "read", Target: "sensor:" + sc.Sensors[i].ID, Nth: r.Range(10, 200), Count: r.Range(1, 5), Kind: kernel.Pick(r, "eio", "garbage", "empty", "missing"), OnlyFlags: "mon"})
 				}
